@@ -388,10 +388,49 @@ class HirFront:
             return ("if", self.cond(n["cond"]), self.term(n["then"]), self.term(n["else"]) if n.get("else") else ("ok",))
         if k == "Ret" or (k == "Break" and n.get("inl_ret") and n.get("e") is not None):
             return self.term(n["e"])   # `return e` (of an inlined helper as well): the value of the arm
+        if k == "Match":
+            # `match e { Ok(s) => Ok(s), Err(s) => f(s) }` is `e.or_else(|s| f(s))`; `Ok(s) => g(s), Err(s) => Err(s)` is
+            # `e.and_then(|s| g(s))`; the desugared `e?` is the operand followed by the rest (handled in Block)
+            arms = n.get("arms", [])
+            if len(arms) == 2 and not any(a.get("guard") for a in arms):
+                byv = {}
+                for a in arms:
+                    vs = hirq.pat_variants(a["pat"])
+                    if len(vs) == 1 and vs[0] in ("core::result::Result::Ok", "core::result::Result::Err"):
+                        byv[vs[0].split("::")[-1]] = a
+                if set(byv) == {"Ok", "Err"}:
+                    def passes(a, ctor):
+                        b = self.strip(peel(a["body"]))
+                        ids = [x[0] for x in hirq.pat_bindings(a["pat"])]
+                        return kind(b) == "Call" and callee(b) == "core::result::Result::" + ctor and len(b["args"]) == 1 \
+                            and hirq.local_id(b["args"][0]) in ids
+                    if passes(byv["Ok"], "Ok") and not passes(byv["Err"], "Err"):
+                        return ("else", (self.term(n["scrut"]), self.term(byv["Err"]["body"])))
+                    if passes(byv["Err"], "Err") and not passes(byv["Ok"], "Ok"):
+                        return ("then", (self.term(n["scrut"]), self.term(byv["Ok"]["body"])))
         if k == "Block":
             stmts = [s for s in n.get("stmts", []) if s.get("k") != "Item"]
             if not stmts and n.get("expr") is not None:
                 return self.term(n["expr"])
+            # `let state = f(state)?; let state = g(state)?; h(state)` is `f(state).and_then(|state| g(state)).and_then(..)`
+            def try_operand(e):
+                e = peel(e) if e is not None else None
+                if kind(e) == "Match" and e.get("src") == "try" and kind(e.get("scrut")) == "Call" and e["scrut"]["args"]:
+                    return e["scrut"]["args"][0]
+                return None
+            if n.get("expr") is not None and stmts and all(s.get("k") == "Let" for s in stmts) and any(
+                    try_operand(s.get("init")) is not None for s in stmts):
+                seq = []
+                for s in stmts:
+                    op = try_operand(s.get("init"))
+                    if op is not None:
+                        seq.append(self.term(op))
+                    elif s["pat"].get("k") == "PBind" and s.get("init") is not None:
+                        self.lets[s["pat"]["id"]] = (s["init"], s)
+                out = self.term(n["expr"])
+                for t_ in reversed(seq):
+                    out = ("then", (t_, out))
+                return out
             # `let strings = [..]; state.skip_until(&strings)` in generated code
             if all(s.get("k") == "Let" for s in stmts) and n.get("expr") is not None:
                 for s in stmts:
